@@ -329,4 +329,7 @@ def check(ctx) -> Result:
     res.frozen(okw and oka, "R-unpack-flattens-in-order", "unpack_circuit_spec", up.site(), up.qualname, "repeats until no Group remains; members replace their group in place, in order", "group flattening changed (order / completeness)", construct=src(up.node)[-200:])
     ug = C.methods["unpack_groups"]
     res.frozen("unpack_circuit_spec(self.__circuit_spec)" in src(ug.node), "R-unpack-flattens-in-order", "Circuit.unpack_groups", ug.site(), ug.qualname, "assigns the flattened list", "unpack_groups no longer assigns the flattened component list", construct="unpack_groups")
+    from ..rules import rz_falsy
+    nz = rz_falsy.none_checks(ctx, res, "C09", ())
+    res.floor("Z functions scanned", nz, 3)
     return res
